@@ -15,3 +15,8 @@ Proof. apply cast_available. vm_compute. reflexivity. Qed.
 (* non-vacuity: the table is not empty and contains a widening the language documents *)
 Lemma table_nonvacuous : In (PLet, I8, I16) implicit_rows /\ In (PArg, U32, I64) implicit_rows /\ In (PRet, F32, F64) implicit_rows.
 Proof. repeat split; apply row_in_In; vm_compute; reflexivity. Qed.
+
+(* conversions into / out of / between user-declared named numeric types (`type N i8;`): accepted implicitly only if
+   the underlying value sets are nested *)
+Lemma table_named_lossless : forall s t, In (s, t) named_rows -> forall v, dom s v -> dom t v.
+Proof. apply pairs_contained. vm_compute. reflexivity. Qed.
